@@ -314,7 +314,11 @@ impl Sys {
         let is126 = self.cfg.chip == "sx1262";
         let mk = |op: Op, outcome: Outcome, spurious: u8| Ev { op, outcome, spurious, fault: None, drop: None };
         let mut v = vec![];
-        let rx_outcomes = [Outcome::Done, Outcome::Timeout, Outcome::CrcError, Outcome::HeaderError, Outcome::Nothing];
+        let mut rx_outcomes = vec![Outcome::Done, Outcome::Timeout, Outcome::CrcError, Outcome::HeaderError, Outcome::Nothing];
+        if is126 {
+            // (the SX127x has no preamble interrupt in LoRa mode)
+            rx_outcomes.push(Outcome::PreambleThenTimeout);
+        }
         if self.obs().in_flight {
             for oc in [Outcome::Done, Outcome::Timeout, Outcome::CrcError, Outcome::HeaderError] {
                 v.push(mk(Op::Elapse, oc, 0));
@@ -328,7 +332,7 @@ impl Sys {
             }
             v.push(mk(Op::ASetupRx { continuous: false }, Outcome::Done, 0));
             v.push(mk(Op::ASetupRx { continuous: true }, Outcome::Done, 0));
-            for oc in rx_outcomes {
+            for &oc in &rx_outcomes {
                 for sp in [0, 1] {
                     v.push(mk(Op::ARxSingle, oc, sp));
                     v.push(mk(Op::ARxContinuous, oc, sp));
@@ -347,7 +351,7 @@ impl Sys {
             v.push(mk(Op::PrepRx { mode: m }, Outcome::Done, 0));
         }
         v.push(mk(Op::StartRx, Outcome::Done, 0));
-        for oc in rx_outcomes {
+        for &oc in &rx_outcomes {
             for sp in [0, 1] {
                 v.push(mk(Op::CompleteRx, oc, sp));
             }
@@ -475,6 +479,19 @@ impl Sys {
             match stuck {
                 Some("interrupt line that never fires") if ev.outcome == Outcome::Nothing && Self::droppable(&ev.op) => {
                     // nothing arrives: the caller abandons the reception (same as a drop at that wait)
+                }
+                Some("interrupt line that never fires")
+                    if !after.in_flight
+                        && self.used == 0
+                        && ev.outcome != Outcome::Nothing
+                        && matches!(after.mode, Mode::Standby)
+                        && (matches!(before.mode, Mode::RxSingle | Mode::Tx | Mode::Cad) || after.tx > before.tx || after.rx > before.rx || after.cad > before.cad) =>
+                {
+                    // the operation this call was waiting for has ended (the chip is back in standby, its
+                    // interrupt was delivered) and the driver went back to waiting for another one
+                    v(format!("waits-forever|operation-already-ended|{opname}"), format!("{:?}: the chip ended its {:?} with outcome {:?} and is in standby; the driver consumed the interrupt and waits for another one that cannot come", ev.op, before.mode, ev.outcome));
+                    self.alive = false;
+                    return out;
                 }
                 Some("interrupt line that never fires") => {
                     // the chip never signals the end of a TX/CAD, or a reception nobody may abandon: not a
@@ -734,7 +751,7 @@ pub fn run(tier: Tier, replay_path: Option<&str>) {
         "evaluations": ctx.evals(),
         "distinct_nontrivial": states,
         "rule": "level-synchronous BFS over histories of API calls on the real driver objects (every transition executes the real code against the chip model), deduplicated on (driver mode, cold-start and calibration flags, chip mode / flags / programmed set / frequency, reference bookkeeping, deviations used)",
-        "bounds": "API call sequences to the stated depth per run; every call x chip interrupt outcome {done, timeout, CRC error, header error, nothing} x {0,1} spurious interrupt-line wake-ups; with deviations: additionally a one-shot fault at every environment position the call consumes (SPI transaction, BUSY wait, interrupt wait, RF switch, reset) and a drop of the future at every position it can be parked on (droppable calls), at most `deviations` per history",
+        "bounds": "API call sequences to the stated depth per run; every call x chip interrupt outcome {done, timeout, CRC error, header error, false preamble then timeout (SX126x), nothing} x {0,1} spurious interrupt-line wake-ups; with deviations: additionally a one-shot fault at every environment position the call consumes (SPI transaction, BUSY wait, interrupt wait, RF switch, reset) and a drop of the future at every position it can be parked on (droppable calls), at most `deviations` per history",
         "exhaustive": true,
     });
     let cfgs: std::cell::RefCell<Option<Cfg>> = std::cell::RefCell::new(None);
